@@ -4,6 +4,8 @@ SPEC = {
     "coq_targets": ["Props/C13.vo"],
     "harness": "hx-poolchain",
     "harness_args": ["C13"],
+    "thorough_shards": 12,
+    "shard_par": 3,
     "translators": [],
     "technique": "the node mines its own block templates (every template obtained at many moments is sealed and given to blocking_process_block on the same node) + Coq model of TemplateSize and the five update paths with an invariant proof for all update sequences + Coq model of TxSelector's package selection with proofs of ancestor-closure, parents-first order and limits",
     "level_text": "Proof (Coq) for the models + direct oracle on the implementation: (1) for the model of TemplateSize::calc_total_by_{proposals,uncles,txs} and update_blank/full/uncles/proposals/transactions with their guards, after ANY sequence of updates the bookkeeping equals the serialized size of the template part by part and the template is within max_block_bytes (c13_size_accounting); (2) for the model of TxSelector::txs_to_commit, for every order in which candidates are considered, the selected list is parents-first and closed under in-pool ancestors given that calc_ancestors is transitively closed and ancestors_count grows along it (c13_ancestors_first, c13_ancestor_closed), and within the size and cycle limits given C11's clause I4 (c13_selection_within_limits); with stale aggregates (C11 finding F3) it is not (c13_selection_limit_stale_refuted) — reproduced on the real node: it then rejects its own template (known finding, same signature as C11's F3). (3) Oracle: in >= 40 histories (quick) every one of ~1300 templates (steady state, while a reorg notification is in flight, after reorgs of depth 1..6, at epoch boundaries of 4/6/9-block epochs, with candidate uncles, with max_block_bytes 2000..6000 / max_block_cycles 1200..10000 / 3 proposals so that the limits bind, pool near its size and ancestor limits) is checked for size <= max_block_bytes, cycles <= max_block_cycles, proposal/uncle limits, TemplateSize == real serialized size, parents-first order, and ~450 of them are mined on the same node: accepted and made the tip. The raw TxSelector output (package_txs) is checked against a dump taken under the same lock.",
